@@ -76,6 +76,7 @@ type G struct {
 	budget int // remaining node budget for the current function
 	singles []hs.Singleton
 	hasEvent bool
+	inExpr  int // >0 while generating statements of a block that is an operand of an expression
 }
 
 func (g *G) feat(s string) { g.Feat[s]++ }
@@ -751,6 +752,8 @@ func (g *G) ifExpr(t hs.Type, d int) hs.Expr {
 func (g *G) valueBlock(t hs.Type, d int) *hs.Block {
 	g.push()
 	defer g.pop()
+	g.inExpr++
+	defer func() { g.inExpr-- }()
 	b := &hs.Block{T: t}
 	if g.chance("blockStmts", 30) && g.budget > 10 {
 		n := g.intn("nBlockStmts", 1, 2)
@@ -856,10 +859,10 @@ func (g *G) lambdaCall(t hs.Type, d int) hs.Expr {
 		}
 	}
 	g.scopes = [][]varInfo{glob, {{name: pname, t: pt}}}
-	savedLoop, savedRet := g.inLoop, g.retT
-	g.inLoop, g.retT = 0, nil
+	savedLoop, savedRet, savedIn := g.inLoop, g.retT, g.inExpr
+	g.inLoop, g.retT, g.inExpr = 0, nil, 0
 	body := &hs.Block{T: t, Tail: g.expr(t, d-1)}
-	g.scopes, g.inLoop, g.retT = saved, savedLoop, savedRet
+	g.scopes, g.inLoop, g.retT, g.inExpr = saved, savedLoop, savedRet, savedIn
 	lam := &hs.FnLit{Params: []hs.Param{{Name: pname, T: pt}}, Ret: t, Body: body}
 	g.feat("lambda")
 	return hs.Call{Fn: hs.Paren{X: lam}, Args: []hs.Expr{g.expr(pt, d-1)}, T: t}
